@@ -26,7 +26,10 @@ Inductive hcase :=
 | HVal (c : rctx) (r : rreq) (o : N)
 (* the UpdateResponder of a request used several times (true = Accept, false = Reject), as the
    virtual-channel handlers and the settlement watcher do: number of calls that returned, responses *)
-| HResp (c : rctx) (u : rupd) (calls : list bool) (returned : nat) (sent : list N).
+| HResp (c : rctx) (u : rupd) (calls : list bool) (returned : nat) (sent : list N)
+(* proposals with parents: the client's channels, the arrivals (handler entered) and returns in the
+   order they happened, the channels whose machine mutex is held when every handler has returned *)
+| HProp (known : list bytes) (evs : list pev) (locked : list bytes).
 
 (* short form of the states of the file's channel *)
 Definition mkS (id : bytes) (bk ass : list N) (app : option bytes) (v : N) (b : list (list Z))
@@ -109,6 +112,11 @@ Section WithTable.
         let cc := cctx c in
         let '(n, sn) := run_resp (cx_mach cc) (cupd u) calls rs0 in
         (n =? returned)%nat && nl_eqb (map resp_code sn) sent
+    | HProp known evs locked =>
+        match prun known [] evs with
+        | PLocks l => forallb (fun x => id_in x locked) l && forallb (fun x => id_in x l) locked
+        | _ => false
+        end
     | HVal c r o =>
         let cc := cctx c in
         match current (cx_mach cc), creq r with
